@@ -1,7 +1,137 @@
 import A2Verif.Model.Hex
-/-! driver family `c08trk` (stub until the family is built) -/
-namespace A2Verif.Drv.C08Trk
+import A2Verif.Model.TrackImg
+/-!
+driver family `c08trk`: whole NIB / WOZ1 / WOZ2 5.25 inch images (`Model.TrackImg`, run with the array
+track representation `ATrk`).
 
-def handle (_toks : List String) : String := "bad-request"
+* `new <kind> <six> <vol>` — `create`: TMAP, TRKS entries, FNV-64 of every track buffer
+* `fmt <kind> <six> <vol> <trk>` — the formatted buffer of one track, in hex
+* `seq <kind> <six> <vol> <ops>` — ops `;`-separated: `rot:<k>` (rotate the `bit_count` bits of every track
+  left by `k`), `r:<cyl>:<head>:<sec>`, `w:<cyl>:<head>:<sec>:<hex>`; answer per op, after every write
+  `@<FNV-64 over the FNV-64 of every track buffer>`
+-/
+namespace A2Verif.Drv.C08Trk
+open A2Verif.Hex A2Verif.Model.Track A2Verif.Model.TrackImg
+
+def fnv64 (bs : List Nat) : UInt64 :=
+  bs.foldl (fun h b => (h ^^^ b.toUInt64) * 0x100000001b3) 0xcbf29ce484222325
+
+def parseKind (s : String) : Option ImgKind :=
+  match s with
+  | "nib" => some .nib
+  | "woz1" => some .woz1
+  | "woz2" => some .woz2
+  | _ => none
+
+def flag (s : String) : Option Bool :=
+  match s with
+  | "0" => some false
+  | "1" => some true
+  | _ => none
+
+def showTErr : TErr → String
+  | .badTrack => "nib:bad-track"
+  | .sectorNotFound => "nib:sector-not-found"
+  | .invalidByte => "nib:invalid-byte"
+  | .badChecksum => "nib:bad-checksum"
+
+/-- buffers of the 35 whole tracks, through the image's own track lookup -/
+def trackBufs (img : TrackImg) : List (Option (List Nat)) :=
+  (List.range 35).map fun t =>
+    match locate img t with
+    | .ok (off, blen, _) => some ((img.bytes.drop off).take blen)
+    | _ => none
+
+def digOf (b : Option (List Nat)) : UInt64 :=
+  match b with
+  | some bs => fnv64 bs
+  | none => 0
+
+def le64 (x : UInt64) : List Nat := (List.range 8).map fun i => ((x >>> (8 * i).toUInt64) &&& 0xff).toNat
+
+def combine (ds : List UInt64) : UInt64 := fnv64 (ds.map le64).flatten
+
+def handleNew (kind : ImgKind) (six : Bool) (vol : Nat) : String :=
+  let img := create ATrk kind six vol
+  let ents := ",".intercalate (img.ents.map fun e => s!"{e.start}.{e.count}.{e.bitCount}")
+  let digs := ",".intercalate ((trackBufs img).map fun b => toString (digOf b))
+  s!"tmap:{toHex img.tmap};ents:{if ents.isEmpty then "-" else ents};off:{img.offset};len:{img.bytes.length};trk:{digs}"
+
+def handleFmt (kind : ImgKind) (six : Bool) (vol trk : Nat) : String :=
+  let (f, cap) : Fmt × Nat := match kind with
+    | .nib => (⟨six, 8, nibCap⟩, nibCap)
+    | .woz1 => (⟨six, wozSync six, woz1Cap⟩, woz1Cap)
+    | .woz2 => (⟨six, wozSync six, woz2Blocks * 512⟩, woz2Blocks * 512)
+  toHex (formatBuf ATrk f vol trk (cap * 8))
+
+inductive IOp
+  | rot (k : Nat)
+  | r (c h s : Nat)
+  | w (c h s : Nat) (d : List Nat)
+
+def parseIOp (s : String) : Option IOp :=
+  match s.splitOn ":" with
+  | ["rot", k] => do some (.rot (← k.toNat?))
+  | ["r", c, h, x] => do some (.r (← c.toNat?) (← h.toNat?) (← x.toNat?))
+  | ["w", c, h, x, d] => do some (.w (← c.toNat?) (← h.toNat?) (← x.toNat?) (← ofHex d))
+  | _ => none
+
+/-- rotate the `bit_count` bits of every (whole) track left by `k` -/
+def rotAll (img : TrackImg) (k : Nat) : TrackImg :=
+  (List.range 35).foldl (fun img t =>
+    match locate img t with
+    | .ok (off, blen, n) =>
+      let buf := unpack ((img.bytes.drop off).take blen)
+      { img with bytes := splice img.bytes off (pack (rot (k % n) (buf.take n) ++ buf.drop n)) }
+    | _ => img) img
+
+def showR : IRes (List Nat) → String
+  | .ok d => "ok:" ++ toHex d
+  | .err => "err"
+  | .nib e => showTErr e
+  | .panic => "panic"
+
+def showW : IRes Unit → String
+  | .ok _ => "ok"
+  | .err => "err"
+  | .nib e => showTErr e
+  | .panic => "panic"
+
+/-- per-track digests are recomputed only for buffers that differ from the previous state (the model
+changes one buffer per write; comparing lists is cheaper than packing them) -/
+def redig (old : List (Option (List Nat) × UInt64)) (img : TrackImg) : List (Option (List Nat) × UInt64) :=
+  (old.zip (trackBufs img)).map fun ((ob, od), nb) => if ob == nb then (ob, od) else (nb, digOf nb)
+
+def runIOps : TrackImg → List (Option (List Nat) × UInt64) → List IOp → List String → List String
+  | _, _, [], acc => acc.reverse
+  | img, ds, op :: rest, acc =>
+    match op with
+    | .rot k =>
+      let img' := rotAll img k
+      let ds' := redig ds img'
+      runIOps img' ds' rest (("@" ++ toString (combine (ds'.map (·.2)))) :: acc)
+    | .r c h s =>
+      let x := readSector ATrk img c h s
+      runIOps x.2 ds rest (showR x.1 :: acc)
+    | .w c h s d =>
+      let x := writeSector ATrk img c h s d
+      let ds' := redig ds x.2
+      runIOps x.2 ds' rest ((showW x.1 ++ "@" ++ toString (combine (ds'.map (·.2)))) :: acc)
+
+def handleSeq (kind : ImgKind) (six : Bool) (vol : Nat) (o : String) : Option String := do
+  let ops ← if o == "-" then some [] else (o.splitOn ";").mapM parseIOp
+  let img := create ATrk kind six vol
+  let ds := (trackBufs img).map fun b => (b, digOf b)
+  some (";".intercalate (runIOps img ds ops []))
+
+def handle (toks : List String) : String :=
+  match toks with
+  | ["new", k, s, v] =>
+    (do some (handleNew (← parseKind k) (← flag s) (← v.toNat?)) : Option String).getD "bad-request"
+  | ["fmt", k, s, v, t] =>
+    (do some (handleFmt (← parseKind k) (← flag s) (← v.toNat?) (← t.toNat?)) : Option String).getD "bad-request"
+  | ["seq", k, s, v, o] =>
+    (do handleSeq (← parseKind k) (← flag s) (← v.toNat?) o : Option String).getD "bad-request"
+  | _ => "bad-request"
 
 end A2Verif.Drv.C08Trk
